@@ -152,6 +152,9 @@ func (v *c12) OnRefused(x *Ctx, s *St, op Op, err error, post *pf.GameState) {
 // RunC12 explores the play grid; every bet/raise amount class is part of the alphabet.
 func RunC12(rep *explore.Report, tier string) {
 	rep.Set("rule", "every betting state of the play grid x every amount argument (every integer in [-2, max stack+2] plus MinInt64/MaxInt64 in the small configurations, threshold classes elsewhere) for Bet and Raise; distinct_nontrivial = raises that fell in the 'exact' or 'undersized' clause")
+	if RunScenes(rep, tier, Visitors["C12"], GridOpts{Property: "C12"}) {
+		return
+	}
 	RunGrid(rep, PlayGrid(tier), Visitors["C12"], GridOpts{Property: "C12", MaxState: 3000000})
 	// the same oracle on genuinely uninterrupted objects (pure replay, no state cloning)
 	RunGrid(rep, ReplayGrid(tier), Visitors["C12"], GridOpts{Property: "C12", MaxState: 300000, Mode: "replay"})
